@@ -501,7 +501,7 @@ func H_C08_stop_with_blocked_callers_returns_by_its_deadline() {
 //vp:override (*bs.bloomEntrySets).buildFilters=vpBuildFiltersStub
 //vp:override bs.encodeFilterSection=vpEncodeSectionStub
 //vp:maxsteps 400000
-//vp:bounds started engine, ingest buffer 1..2, MaxBufferedRows 1..2, store wedged inside CreateFile; one producer goroutine submitting up to 9 one-row batches back to back; observed once every goroutine has parked, then the store is released and the engine stopped
+//vp:bounds started engine, ingest buffer 1..2, MaxBufferedRows 1..2, store wedged inside CreateFile; one producer goroutine submitting up to 9 one-row batches back to back, all with or all without a done channel; observed once every goroutine has parked, then the store is released and the engine stopped
 func H_C09_stalled_flushing_blocks_producers_within_a_bound() {
 	w := vpNewWorld()
 	w.failCreate, w.failWrite, w.failClose, w.failUpdate, w.failTombstone = false, false, false, false, false
@@ -514,12 +514,18 @@ func H_C09_stalled_flushing_blocks_producers_within_a_bound() {
 	accepted := 0
 	producerDone := false
 	var dones []chan error
+	fireAndForget := nondetBool() // batches without a done channel get the same backpressure
 	go func() {
 		for i := 0; i < total; i++ {
 			d := make(chan error, 1)
+			if fireAndForget {
+				d = nil
+			}
 			if b.IngestRows(context.Background(), []map[string]any{vpBatchRow(false, "p")}, d) == nil {
 				accepted++
-				dones = append(dones, d)
+				if d != nil {
+					dones = append(dones, d)
+				}
 			}
 		}
 		producerDone = true
@@ -537,7 +543,7 @@ func H_C09_stalled_flushing_blocks_producers_within_a_bound() {
 			unanswered++
 		}
 	}
-	vpAssert(unanswered == accepted, "C06: a batch was acknowledged while the store is wedged")
+	vpAssert(unanswered == len(dones), "C06: a batch was acknowledged while the store is wedged")
 	close(w.wedge)
 	vpQuiesce()
 	vpAssert(producerDone && accepted == total, "C09: producers did not resume once flushing resumed")
@@ -586,7 +592,7 @@ func H_C09_constructor_sizes_the_queues_from_the_configuration() {
 //
 //vp:override (*bs.BloomSearchEngine).triggerFlush=vpTriggerRec
 //vp:override (*bs.bloomEntrySets).indexRow=vpIndexRowNop
-//vp:bounds all four size limits symbolic (1..2^40), MaxBufferedTime one hour (elapsed time arbitrary, so the time trigger fires or not); buffered state: one partition with symbolic row/byte counts below its limits, symbolic totals below the buffer limits, clock running; a batch of 1..2 rows (13 bytes each) into the buffered partition or a new one; elapsed time arbitrary
+//vp:bounds all four size limits symbolic (1..2^40), MaxBufferedTime one hour (elapsed time arbitrary, so the time trigger fires or not); buffered state: one partition with symbolic row/byte counts below its limits, symbolic totals below the buffer limits, clock running; a batch of 1..2 rows into the buffered partition, a new one, or one row into each (either order); elapsed time arbitrary
 func H_C10_reaching_a_limit_hands_the_buffer_to_a_flush() {
 	lim := func() int {
 		v := nondetInt()
@@ -616,6 +622,14 @@ func H_C10_reaching_a_limit_hands_the_buffer_to_a_flush() {
 	for i := range rows {
 		rows[i] = vpBatchRow(false, part)
 	}
+	spans := n == 2 && nondetBool() // the batch spans both partitions, in either order
+	if spans {
+		other := "q"
+		if part == "q" {
+			other = "p"
+		}
+		rows[1] = vpBatchRow(false, other)
+	}
 	d := make(chan error, 2)
 	vpTriggered = nil
 	preRows, preBytes := pre.rowCount, pre.uncompressedSize
@@ -637,6 +651,18 @@ func H_C10_reaching_a_limit_hands_the_buffer_to_a_flush() {
 	vpAssert(pb != nil, "C10: the accepted batch's partition has no buffer")
 	added := byteCount - byteCountBefore
 	vpAssert(rowCount == rowCountBefore+n && added >= n*LengthPrefixSize, "C10: buffered row/byte totals do not count the accepted batch")
+	if spans {
+		// one row went to each partition: every partition is still below its row-group limits
+		for _, id := range []string{"p", "q"} {
+			b2 := bufs[id]
+			vpAssert(b2 != nil, "C10: a partition of the accepted batch has no buffer")
+			vpAssert(b2.rowCount < b.config.MaxRowGroupRows, "C10: a partition reached MaxRowGroupRows but the buffer was not handed to a flush")
+			vpAssert(b2.uncompressedSize < b.config.MaxRowGroupBytes, "C10: a partition reached MaxRowGroupBytes but the buffer was not handed to a flush")
+		}
+		vpAssert(bufs["p"].rowCount+bufs["q"].rowCount == preRows+2, "C10: the partitions' row counts do not count the accepted batch")
+		vpAssert(rowCount < b.config.MaxBufferedRows && byteCount < b.config.MaxBufferedBytes, "C10: a buffer limit was reached but the buffer was not handed to a flush")
+		return
+	}
 	if part == "p" {
 		vpAssert(pb.rowCount == preRows+n && pb.uncompressedSize == preBytes+added, "C10: the partition's row/byte counts do not count the accepted batch")
 	} else {
@@ -687,4 +713,47 @@ func H_C10_ticker_flushes_buffered_rows_after_max_buffered_time() {
 	vpAssert(len(good.done) == 1, "C10: buffered rows were not flushed although MaxBufferedTime has passed and the ticker fired")
 	vpAssert(<-good.done == nil && w.count(evUpdateOK, -1) == 1, "C06: the time-triggered flush did not commit the rows it acknowledged")
 	vpAssert(b.Stop(context.Background()) == nil, "C08: Stop returned an error")
+}
+
+// Every waiter of a flush is attempted exactly once, whatever happens to the ones before it: an
+// abandoned unbuffered waiter under a cancelled context must not cost the waiters behind it their
+// answer (sendToChannelsWithContext / sendOptionalWithContext / sendWithContext, and handleFlush
+// entered after the shutdown deadline).
+//
+//vp:bounds 4 waiters: an abandoned unbuffered channel, a nil channel and buffered channels in any of 3 orders; context cancelled before the call, at any of its observations, or never (then no abandoned waiter); through sendToChannelsWithContext directly or through handleFlush entered with the cancelled context
+func H_C05_every_waiter_of_a_flush_is_attempted_once() {
+	ctx := &vpCancelCtx{may: true, done: make(chan struct{})}
+	abandoned := make(chan error)
+	b1, b2 := make(chan error, 2), make(chan error, 2)
+	var ws []chan error
+	switch nondetChoice(3) {
+	case 0:
+		ws = []chan error{abandoned, b1, nil, b2}
+	case 1:
+		ws = []chan error{b1, abandoned, b2, nil}
+	default:
+		ws = []chan error{nil, b1, b2, abandoned}
+	}
+	preCancelled := nondetBool()
+	if preCancelled {
+		ctx.canceled = true
+		close(ctx.done)
+	}
+	viaFlush := preCancelled && nondetBool()
+	vpBlockedOK() // a live context and an abandoned unbuffered waiter: delivery blocks (documented backpressure)
+	if viaFlush {
+		w := vpNewWorld()
+		b := vpFlushEngine(w)
+		b.handleFlush(ctx, flushRequest{partitionBuffers: map[string]*partitionBuffer{"p": vpPartitionBuffer("p")}, doneChans: ws})
+		vpAssert(len(w.events) == 0, "C08: a flush entered after the shutdown deadline started store work")
+		vpAssert(len(b1) == 1, "C05/C08: a waiter that can still receive got silence from an abandoned flush")
+		v := <-b1
+		b1 <- v
+		vpAssert(v != nil, "C08: a waiter of an abandoned flush was acknowledged nil")
+	} else {
+		err := sendToChannelsWithContext[error](ctx, ws, nil)
+		vpAssert(err != nil, "C05: delivery to an abandoned waiter under a cancelled context reported success")
+	}
+	vpAssert(len(b1) == 1 && len(b2) == 1, "C05: a waiter that can receive was not answered exactly once because delivery to another waiter failed")
+	vpAssert(len(abandoned) == 0, "C05: an abandoned unbuffered waiter cannot have received")
 }
